@@ -31,7 +31,7 @@ func TestVerif_C07_commits(t *testing.T) {
 		defer debug.SetGCPercent(debug.SetGCPercent(300))
 		allBases := mc.Pick(r, false, true)
 		r.Rule("alphabets K1 (2-byte keys, deep shared prefixes), KB (2-byte, 4 root children), KB32 (32-byte) x committed base set (quick: 64 subsets x " +
-			"value patterns {alternating; K1 also all long}, KB32 modifications over {untouched,v2,empty} only; thorough: all 729 assignments) x every modification in {untouched,v1,v2,empty}^6 (4096) " +
+			"alternating short/long values, KB32 modifications over {untouched,v2,empty} only; thorough: all 729 assignments) x every modification in {untouched,v1,v2,empty}^6 (4096) " +
 			"applied by Update calls (K1; thorough also KB) or by one UpdateBatch call (KB, KB32), then Commit; distinct = distinct (alphabet, mode, base set, new set); " +
 			"plus, for each of the 3^6 sets of K1,K2,KB,KB32: StackTrie OnTrieNode emissions vs the nodes committed by a fresh trie vs the reference nodes")
 		r.Assume("reference = independent Yellow-Paper MPT (own RLP, hex-prefix, embedding rule): root and the exact set of stored nodes path->blob (root plus every node >= 32 bytes)")
@@ -56,8 +56,8 @@ func TestVerif_C07_commits(t *testing.T) {
 				if !allBases && cfg.a.Name == "KB32" && !c06Alternating(b) {
 					continue // 32-byte keys: leaves are hashed nodes whatever the value; quick keeps one value pattern per subset
 				}
-				if !allBases && (c06AllShort(b) || (cfg.a.Name == "KB" && !c06Alternating(b))) {
-					continue // quick: K1 with alternating and all-long values, KB with alternating values
+				if !allBases && !c06Alternating(b) {
+					continue // quick: one value pattern (alternating short/long) per subset
 				}
 				shards = append(shards, shard{cfg.a, b, cfg.mode})
 			}
@@ -148,10 +148,10 @@ func TestVerif_C07_commits(t *testing.T) {
 						pstore.apply(set)
 						hstore.apply(set)
 					}
-					if err := c06CheckImage(c06Path, pstore.m, finalRef.nodes); err != nil {
+					if err := c06CheckImage(c06Path, pstore.m, finalRef); err != nil {
 						return fmt.Errorf("%v (nodeset nil=%v)", err, set == nil)
 					}
-					if err := c06CheckImage(c06Hash, hstore.m, finalRef.nodes); err != nil {
+					if err := c06CheckImage(c06Hash, hstore.m, finalRef); err != nil {
 						return err
 					}
 					// The path image is now known to be identical to the reference image; the new root is
